@@ -296,7 +296,8 @@ pub fn list_xml(bucket: &str, prefix: &str, objs: &[&Obj], truncated: bool, max_
 pub fn select<'a>(sorted: &'a [Obj], prefix: &str, max_keys: Option<usize>) -> (Vec<&'a Obj>, bool, usize) {
     let limit = max_keys.unwrap_or(1000).min(1000);
     let all: Vec<&Obj> = sorted.iter().filter(|o| o.key.starts_with(prefix)).collect();
-    let truncated = all.len() > limit;
+    // S3 answers max-keys=0 with no keys and IsTruncated=false
+    let truncated = limit > 0 && all.len() > limit;
     (all.into_iter().take(limit).collect(), truncated, limit)
 }
 
